@@ -26,6 +26,8 @@ import (
 	_ "verifsim/worlds/dlqworld"
 	_ "verifsim/worlds/versionworld"
 	_ "verifsim/worlds/stakechainworld"
+	_ "verifsim/worlds/c14chainworld"
+	_ "verifsim/worlds/c14syncworld"
 )
 
 var userArgs []string
